@@ -7,6 +7,7 @@ CONSTANTS Kinds <- K3
  TrimThreshold = 3
  GuardGeneration = "yes"
  ShareRefs = FALSE
+ OnFetchError = "error"
  GenLen = 22
  MaxVer = 2
 INVARIANTS Emit
